@@ -327,12 +327,16 @@ func (s *regSM) GetHash() (uint64, error) { return s.st.H, nil }
 // concurrent state machine (sm.IConcurrentStateMachine)
 
 type conSM struct {
-	st      *kvState
-	calls   []call
-	onSave  func() // called from inside SaveSnapshot: the harness applies more entries here
-	saves   int
-	recvs   int
-	prepped int
+	st     *kvState
+	calls  []call
+	onSave func() // called from inside SaveSnapshot: the harness applies more entries here
+	// onPrepare is called from inside PrepareSnapshot after the state was captured: the harness
+	// starts a goroutine that applies more entries (it queues up behind the lock that
+	// PrepareSnapshot is called under) and dwells a moment
+	onPrepare func()
+	saves     int
+	recvs     int
+	prepped   int
 }
 
 func newConSM() *conSM { return &conSM{st: newKV()} }
@@ -347,7 +351,11 @@ func (s *conSM) Update(ents []sm.Entry) ([]sm.Entry, error) {
 func (s *conSM) Lookup(interface{}) (interface{}, error) { return s.st.Count, nil }
 func (s *conSM) PrepareSnapshot() (interface{}, error) {
 	s.prepped++
-	return s.st.clone(), nil
+	c := s.st.clone()
+	if s.onPrepare != nil {
+		s.onPrepare()
+	}
+	return c, nil
 }
 func (s *conSM) SaveSnapshot(ctx interface{}, w io.Writer, _ sm.ISnapshotFileCollection, _ <-chan struct{}) error {
 	s.saves++
